@@ -52,7 +52,8 @@ func WithCancel(parent context.Context) (context.Context, context.CancelFunc) {
 	register(parent, ctx)
 	p := donePtr(ctx)
 	return ctx, func() {
-		if vs.Active() && vs.S == owner && ctx.Err() == nil {
+		if vs.Active() && vs.S == owner && ctx.Err() == nil && !vs.Aborting() {
+			vs.Point("cancel", p)
 			release(p, 0)
 		}
 		cancel()
@@ -102,7 +103,8 @@ func WithTimeout(parent context.Context, d time.Duration) (context.Context, cont
 		if stop != nil {
 			stop()
 		}
-		if vs.Active() && vs.S == owner && inner.Err() == nil {
+		if vs.Active() && vs.S == owner && inner.Err() == nil && !vs.Aborting() {
+			vs.Point("cancel", p)
 			release(p, 0)
 		}
 		cancel()
